@@ -79,7 +79,7 @@ def optNat : Option Nat → String
   | none => "n" | some v => toString v
 
 def showDecoded (d : Decoded) : String :=
-  s!"ok {showClass d.cls} {showMethod d.method} {hex d.tx} {optAddr d.mapped} {optAddr d.relayed} {optAddr d.peer} {optNat d.errorCode} {optBytes d.realm} {optBytes d.nonce} {optBytes d.data} {b01 d.useCandidate} {optNat d.lifetime}"
+  s!"ok {showClass d.cls} {showMethod d.method} {hex d.tx} {optAddr d.mapped} {optAddr d.relayed} {optAddr d.peer} {optNat d.errorCode} {optBytes d.realm} {optBytes d.nonce} {optBytes d.data} {b01 d.useCandidate} {optNat d.lifetime} {optNat d.priority}"
 
 def showErr : DecErr → String
   | .tooShort => "err short" | .lengthMismatch => "err length" | .badMethod => "err method"
